@@ -4,6 +4,7 @@ tier=${1:-quick}; shift
 ids="$@"
 cd "$(dirname "$0")/.."
 [ -z "$ids" ] && ids=$(python3 -c "import json;print(' '.join(c['property_id'] for c in json.load(open('MANIFEST.json'))['checks']))")
+mkdir -p .work
 for p in $ids; do
   s=$(date +%s)
   ./check $p --tier $tier > .work/sweep-$p-$tier.log 2>&1; rc=$?
